@@ -150,7 +150,7 @@ func runC12(c *Ctx) {
 		}
 		// limit reaches mergeSortLimit
 		m := CallsIn(fn, "(*db/diffdb.Database).mergeSortLimit")
-		okm := len(m) == 1 && T(m[0].Call.Common().Args[4]).Op == "param" && T(m[0].Call.Common().Args[3]).Op == "param"
+		okm := len(m) == 1 && T(ArgK(m[0].Call, 4)).Op == "param" && T(ArgK(m[0].Call, 3)).Op == "param"
 		c.Require("C12.R2 limit-after-merge", FuncKey(fn)+" ⇒ mergeSortLimit", p.Pos(fn.Pos()), "reverse and limit parameters are applied by mergeSortLimit", okm, "")
 	}
 
@@ -267,7 +267,7 @@ func runC12(c *Ctx) {
 			if CalleeName(call.Common()) != "builtin:append" {
 				continue
 			}
-			if !strings.Contains(typeName(call.Common().Args[0].Type()), "KeyValue") {
+			if !strings.Contains(typeName(ArgK(call, 0).Type()), "KeyValue") {
 				continue
 			}
 			n++
@@ -293,7 +293,7 @@ func runC12(c *Ctx) {
 			}
 			seekGEStart := false
 			for _, s := range CallsIn(ir, "(*github.com/cockroachdb/pebble.Iterator).SeekGE") {
-				if instrDominates(s.Call, call) && T(s.Call.Common().Args[1]).String() == "p1" && !reachable2(s.Call.Block(), s.Call.Block()) {
+				if instrDominates(s.Call, call) && T(ArgK(s.Call, 1)).String() == "p1" && !reachable2(s.Call.Block(), s.Call.Block()) {
 					// ascending scan from start: only valid when this append is not also reached from the descending seek
 					seekGEStart = true
 				}
@@ -391,7 +391,7 @@ func runC12(c *Ctx) {
 				n++
 				isClose := func(in ssa.Instruction) bool {
 					cl, ok := in.(ssa.CallInstruction)
-					return ok && strings.HasSuffix(CalleeName(cl.Common()), "pebble.Iterator).Close") && len(cl.Common().Args) > 0 && stripConv(cl.Common().Args[0]) == ssa.Value(prm)
+					return ok && strings.HasSuffix(CalleeName(cl.Common()), "pebble.Iterator).Close") && len(cl.Common().Args) > 0 && stripConv(ArgK(cl, 0)) == ssa.Value(prm)
 				}
 				// deferred close counts
 				deferred := false
@@ -464,7 +464,7 @@ func checkSentinelProducers(c *Ctx, rule string, commit *ssa.Function) {
 					// turns an empty non-nil x into nil)
 					isClone := false
 					if cl, ok := v.(*ssa.Call); ok && CalleeName(cl.Common()) == "bytes.Clone" && len(cl.Common().Args) == 1 {
-						if at := T(cl.Common().Args[0]); IsField("db/diffdb.cacheValue", "init").Match(at) {
+						if at := T(ArgK(cl, 0)); IsField("db/diffdb.cacheValue", "init").Match(at) {
 							isClone = true
 						}
 					}
